@@ -60,6 +60,21 @@ def v_val(r, p):
                      p["v_free"] * 1.1, p["v_free"] * math.exp(-1 / p["a"])))
 
 
+class _SliceSigns:
+    """Helper: a slice object plus the positions it selects on N segments (the harness iterates the positions, the library gets
+    the slice itself through `.slice`)."""
+
+    def __init__(self, start, stop, step, N):
+        self.slice = slice(start, stop, step)
+        self.positions = list(range(N))[self.slice]
+
+    def __iter__(self):
+        return iter(self.positions)
+
+    def __len__(self):
+        return len(self.positions)
+
+
 def _fresh(x, rng):
     """The flow-equation name as a literal, as a string built at run time (a value read from a
     configuration file is equal to the literal, not identical to it), or as a numpy string."""
@@ -162,12 +177,19 @@ def direct_calls(M, rec, rng, reps):
                     k_ = rng.randint(1, N)
                     vsl = rng.choice((range(0, k_), range(-k_, 0), range(N - 1, -1, -1), range(0, N, 2), range(-1, -k_ - 1, -1), range(N - k_, N)))
                     rec.count("direct_calls_with_signs_given_as_a_range")
+                    if rng.random() < 0.4:
+                        # ... or as the slice that selects the same segments (`link.vsl = slice(1, 4)`)
+                        cand_ = _SliceSigns(*rng.choice(((1, None, None), (0, k_, None), (-k_, None, None), (0, None, 2), (None, None, -1), (N - k_, N, None))), N)
+                        vsl = cand_ if len(cand_) else vsl  # (a slice that selects nothing is refused by CasADi on the unchanged tree)
+                if isinstance(vsl, _SliceSigns):
+                    rec.count("direct_calls_with_signs_given_as_a_slice")
                 vc = []
                 for i in vsl:
                     V = R.veq(rho[i], p["v_free"], p["rho_crit"], p["a"])
                     vc.append(rng.choice((rng.uniform(10, 70), 200.0, math.inf, 0.0, V / 1.1, V)))
                 rec.seen("optional_combos", ("controlled_Veq", min(len(vsl), 2), N == len(vsl)))
-                E.LinksEngine.controlled_Veq(vec_(rho, side), vec(vc, side), vsl, rng.choice((0.1, 0.0, -0.1)), p["v_free"], p["rho_crit"], p["a"])
+                E.LinksEngine.controlled_Veq(vec_(rho, side), vec(vc, side), (vsl.slice if isinstance(vsl, _SliceSigns) else vsl), rng.choice((0.1, 0.0, -0.1)),
+                                             p["v_free"], p["rho_crit"], p["a"])
             elif prim == "step_queue":
                 E.OriginsEngine.step_queue(s(rng.choice((0.0, rng.uniform(0, 500)))), s(rng.uniform(0, 5000)),
                                            s(rng.uniform(0, 5000)), T)
@@ -195,7 +217,11 @@ def direct_calls(M, rec, rng, reps):
                 R.ramp_flow(d, w, C, r_, p["rho_max"], rho[0], p["rho_crit"], T, eq or "out", br, "ramp:" + str(eq))
                 for b in br:
                     rec.seen("branches", b)
-                args = (s(d), s(w), C, s(r_), p["rho_max"], s(rho[0]), p["rho_crit"], T)
+                r_arg = s(r_)
+                if side == "numpy" and r_ in (0.0, 1.0) and rng.random() < 0.3:
+                    r_arg = rng.choice((bool(r_), np.bool_(bool(r_)), np.array([bool(r_)])))  # an on/off metering signal
+                    rec.count("direct_calls_with_a_boolean_metering_rate")
+                args = (s(d), s(w), C, r_arg, p["rho_max"], s(rho[0]), p["rho_crit"], T)
                 if eq is None:
                     E.OriginsEngine.get_ramp_flow(*args)
                 elif rng.random() < 0.5:
